@@ -12,15 +12,15 @@
    Hence a re-layout (gaps of whitespace and comments changed between lexemes) changes the token
    list only in its positions, and a lexical error remains the same error, shifted.
    AND for the whole pipeline (PositionsProofs.v): if two source texts have the same token contents
-   (same kinds, names and attribute texts — whatever lies between the tokens) and the first is
-   syntactically valid, then `generate` gives, for the same digest argument, the same emitted
-   text byte for byte, or the same error up to the positions it carries
-   (C16_same_tokens_same_result).  The parser, cst_to_ast, validate_ast, the automaton, the
+   (same kinds, names and attribute texts — whatever lies between the tokens), then `generate`
+   gives, for the same digest argument, the same emitted text byte for byte, or the same error
+   up to the positions it carries — a syntax error included: its text is the text of the
+   offending token (C16_same_tokens_same_result).  The parser, cst_to_ast, validate_ast, the automaton, the
    table and the emitter are each shown to commute with erasing every stored position
    (Front/Positions.v, Ast/Positions.v, Emit/Positions.v).
-   NOT proved: the same for a syntax error (its text is the source slice of the offending token);
-   the actual position map of an error after a re-layout.  Decided per pair by the check (source
-   vs random re-layout through the crate, results compared modulo the hash line / position map). *)
+   NOT proved: the actual position map of a non-lexical error after a re-layout (the theorem
+   compares errors with positions erased).  Decided per pair by the check (source vs random
+   re-layout through the crate, results compared modulo the hash line / position map). *)
 From Coq Require Import List NArith.
 From Kiki Require Import Base.Ord Base.Chars Data Lex.Model Lex.Proofs Lex.Spec LR.Driver Front.Parse Emit.Positions Front.Positions Pipeline PositionsProofs.
 
@@ -54,9 +54,8 @@ Proof. exact lex_shift. Qed.
 Theorem C16_same_tokens_same_result : forall ho digest src1 src2 toks1 toks2,
   tokenize src1 = Ok toks1 -> tokenize src2 = Ok toks2 ->
   map erase_tok toks1 = map erase_tok toks2 ->
-  (forall tok, parse token_kind kiki_ptable (front_fuel (length toks1)) toks1 <> OReject tok) ->
   rerase same (generate_model ho digest src1) = rerase same (generate_model ho digest src2).
-Proof. exact same_tokens_same_result. Qed.
+Proof. exact same_tokens_same_result_always. Qed.
 
 Print Assumptions C16_whitespace_run_is_skipped.
 Print Assumptions C16_same_tokens_same_result.
